@@ -120,7 +120,9 @@ func (p *Prog) Contexts() *CtxInfo {
 		for _, l := range f.Lits {
 			edges = append(edges, callEdge{f, l})
 		}
-		if f.Lit == nil && f.Decl.Name.IsExported() && f.Short != "index" {
+		// entry points for arbitrary goroutines: the exported API of package manager (methods of Manager, View,
+		// StreamContext); exported functions of builder/converters/index get their context from their callers
+		if f.Lit == nil && f.Decl.Name.IsExported() && f.Short == "manager" && f.Key() != "manager.New" {
 			add(f, ctxAPI, "exported")
 		}
 	}
